@@ -8,6 +8,7 @@ import impl as implmod
 import props.c02 as c02
 
 PROP = "C08"
+CONSTS = ['ops', 'ctl']          # constant tables of the models this property depends on
 RULE = ("programs of C02 run in five-stage mode with hazard detection DISABLED, traced cycle by cycle; compared with an "
         "independent interlock-free pipeline reference (stale reads when a consumer is fewer than three slots behind its producer); "
         "plus arbitrary programs padded with two nops after every instruction (branch offsets scaled) compared with single-cycle "
